@@ -229,7 +229,14 @@ def interval_bounds(case):
         return None
     q0 = q0_table(case)
     init = [q0[s][a] for s in range(m["n"]) for a in m["actions"][s] if not m["absorbing"][s]] + [F(0)]
-    rews = [F(x) for x in m["reward"].values()] + [F(0)]
+    # rewards a step can actually carry: from a non-absorbing state, along a positive-probability transition
+    rews = []
+    for k, row in m["trans"].items():
+        s, a = map(int, k.split(","))
+        if not m["absorbing"][s]:
+            rews += [F(m["reward"].get("%d,%d,%d" % (s, a, ns), "0")) for ns, p in row if F(p) > 0]
+    if not rews:
+        rews = [F(0)]
     return min(init + [min(rews) / (1 - g)]), max(init + [max(rews) / (1 - g)])
 
 
@@ -313,6 +320,8 @@ def run(ctx):
         for s, pol in enumerate(impl_pol):
             if any(a not in m["actions"][s] for a in pol) and not bad:
                 bad = ("policy supports an unavailable action", {"state": s})
+        if len(res["episodes"]) != int(case["episodes"]) and not bad:
+            bad = ("number of episodes differs from the configured one", {"episodes": len(res["episodes"])})
         if res["keys_after_policy"] != res["keys"]:
             stats["keys_mutated_by_policy_query"] += 1
             if not bad:
